@@ -449,6 +449,7 @@ class Forest(WeightedGraph):
         for j in range(1, depth.max() + 1):
             for i in range(self.V):
                 if depth[i] == j:
-                    if np.size(np.unique(label[ch[i]])) == 1:
-                        label[i] = np.unique(label[ch[i]])
+                    values = np.unique(label[ch[i]])
+                    if np.size(values) == 1:
+                        label[i] = values[0]
         return label
